@@ -51,6 +51,7 @@ def setup(rep, tier):
     rep.minimum('R10.8', 7)
     rep.minimum('R10.9', 2)
     rep.minimum('R10.10', 1)
+    rep.minimum('R10.11', 2)
 
 
 # ---------------------------------------------------------------- R10.1
@@ -706,7 +707,87 @@ def r10_10(rep, prog):
     return 1
 
 
+# ------------------------------------------------------------------ R10.11
+def _null_unsafe(prog, g, k, memo, depth=0):
+    """(where, text) of a dereference of pointer parameter k of g that is reachable when the parameter is NULL at entry
+    (paths decided by the branch conditions on the parameter itself; other conditions unknown), directly or through a
+    callee the parameter is handed to; None if there is none"""
+    key = (g.name, k)
+    if key in memo:
+        return memo[key]
+    memo[key] = None
+    if depth > 6:
+        return None
+    cf = cfgm.CFG(g)
+    pk = ('param', k)
+    feas = decide.feasible_blocks(cf, {pk: 0}, entry=True)
+    # blocks at or after an assignment to the parameter: its value is no longer the caller's
+    asg = set()
+    for b in cf.blocks:
+        for s_ in cf.blocks[b]['stmts']:
+            for n in sx.walk(s_):
+                if n[0] == 'assign' and sx.key(sx.strip_paren(n[1])) == pk:
+                    asg.add(b)            # `data += n` / `data++` keep an invalid pointer invalid; only a plain re-assignment ends the tracking
+    stale = set()
+    for a in asg:
+        stale |= {a} | cf.reachable_from(a)
+    out = None
+    for b in sorted(feas - stale, reverse=True):
+        items = list(cf.blocks[b]['stmts'])
+        c = cf.cond(b)
+        if c is not None:
+            items.append(c)
+        for s_ in items:
+            for n in sx.walk(s_):
+                if sx.kind(n) in ('deref', 'idx') and sx.key(sx.strip(n[1])) == pk:
+                    out = ('%s:%s' % (g.file, sx.line(n) or sx.line(s_)), '`%s` in %s' % (sx.show(n)[:30], g.name))
+                    break
+                if sx.kind(n) == 'call':
+                    for ai, a in enumerate(n[2]):
+                        if sx.key(sx.strip(a)) == pk:
+                            fs, ext, ok = prog.callees(g, n)
+                            for h in fs:
+                                if ai < len(h.params):
+                                    r = _null_unsafe(prog, h, ai, memo, depth + 1)
+                                    if r:
+                                        out = ('%s:%s' % (g.file, sx.line(n)), '%s(%s) -> %s' % (h.name, sx.show(a)[:12], r[1]))
+                                        break
+                if out:
+                    break
+            if out:
+                break
+        if out:
+            break
+    memo[key] = out
+    return out
+
+
+def r10_11(rep, prog):
+    """"Use a NULL pointer to indicate packet loss" (opus.h, opus_multistream.h, opus_projection.h): a decode call with
+    data == NULL conceals, whatever len says.  The stand-alone decoder tests `len==0 || data==NULL`; the multistream
+    decoder must equal it stream by stream, so a NULL payload may not reach a parser there either."""
+    n = 0
+    memo = {}
+    for fname in ('opus_decode_native', 'opus_multistream_decode_native'):
+        if not prog.has_fn(fname):
+            continue
+        f = prog.fn(fname)
+        k = f.param_index('data')
+        if k is None:
+            continue
+        rep.functions.add(fname)
+        n += 1
+        inst = '%s:%s conceals when data == NULL, whatever len is' % (prog.config, fname)
+        r = _null_unsafe(prog, f, k, memo)
+        if r is None:
+            rep.holds('R10.11', inst, f.where(), 'no dereference of the payload pointer (directly or through %d analysed callees) is reachable with data == NULL' % max(0, len(memo) - 1))
+        else:
+            rep.violated('R10.11', inst, r[0], 'with data == NULL and len > 0 the payload pointer reaches %s: the call crashes where the stand-alone decoder conceals' % r[1], key=fname + ':null-payload')
+    return n
+
+
 def check(rep, prog, tier):
+    r10_11(rep, prog)
     r10_10(rep, prog)
     r10_9(rep, prog)
     r10_7(rep, prog)
